@@ -25,8 +25,23 @@ from core import Case, q, qs, qpts, fr, show_list, show_pts, show_pts2
 import gen as G
 
 PID = 'C20'
-FLOAT_KINDS = {'isleft', 'wn', 'hull', 'frange', 'voxgrid', 'fcpc', 'fcps'}      # float-mode companion (core.float_companion)
+FLOAT_KINDS = {'isleft', 'wn', 'hull', 'fcpc', 'fcps'}      # float-mode companion; frange / voxgrid are left out: how many values frange yields when stop = start + n*step exactly is decided by rounding in doubles
 FLOAT_TOL = 1e-9
+
+
+def FLOAT_FILTER(c):
+    """discrete answers are compared in doubles only where the exact margin is not zero: a point exactly ON the
+    polygon boundary (the property says 'off the boundary'), three exactly collinear points for is_left / the hull"""
+    d = c.data
+    if c.kind == 'wn':
+        return bool(d.get('poly')) and not on_boundary(d['poly'], d['pt'])
+    if c.kind == 'isleft':
+        a, b, p_ = d['a'], d['b'], d['c']
+        return (b[0] - a[0]) * (p_[1] - a[1]) - (p_[0] - a[0]) * (b[1] - a[1]) != 0
+    if c.kind == 'hull':
+        pts = d['pts']
+        return all(F(x).denominator in (1, 2, 4, 8) for pt in pts for x in pt)     # dyadic: every cross product exact in doubles
+    return True
 STATS = G.STATS
 TOL_RAY = F((1 << 8) * sys.float_info.epsilon)      # default of ray.intersect = 2^-44
 TOL_VOX = F(10e-8)                                   # default padding of the voxel in/out test
@@ -557,18 +572,19 @@ def _limit(lo, hi, cubes):
 
 
 def guarded(f, seconds=2.0):
-    """run f() but give up after `seconds` (the voxel grid of a flat box with use_cubes=True never finishes, F-20a)"""
+    """run f() but give up after `seconds` of USER CPU time (the voxel grid of a flat box with use_cubes=True never
+    finishes, F-20a); an own timer (ITIMER_VIRTUAL), so the limits of core.limited around the case stay armed"""
     import signal
 
     def on_alarm(*a):
         raise Hang()
-    old = signal.signal(signal.SIGALRM, on_alarm)
-    signal.setitimer(signal.ITIMER_REAL, seconds)
+    old = signal.signal(signal.SIGVTALRM, on_alarm)
+    signal.setitimer(signal.ITIMER_VIRTUAL, seconds)
     try:
         return f()
     finally:
-        signal.setitimer(signal.ITIMER_REAL, 0)
-        signal.signal(signal.SIGALRM, old)
+        signal.setitimer(signal.ITIMER_VIRTUAL, 0)
+        signal.signal(signal.SIGVTALRM, old)
 
 
 def _rays(d):
